@@ -268,10 +268,10 @@ Proof.
   intros f Hf. apply HF. right; exact Hf.
 Qed.
 
-Lemma ctx_start_eff cfg c W : all_off cfg -> Inv W -> effA W W (ctx_start cfg c W).
+Lemma ctx_start_eff cfg c ord W : all_off cfg -> Inv W -> effA W W (ctx_start cfg c ord W).
 Proof.
   intros AO HI. unfold ctx_start. apply (effA_status W W _ (fun V => set_auto V (addn c (w_auto V)))); [intros V; split; reflexivity|].
-  apply fold_ctx_start_eff; try assumption; [apply below_refl|auto].
+  apply fold_ctx_start_eff; try assumption; [apply below_refl|apply order_funcs_In].
 Qed.
 
 Lemma dm_resume_eff g W : effA W W (dm_resume g W).
@@ -463,7 +463,7 @@ Proof.
     exists fs. split; [exact E|]. intros f Hf. destruct (P f Hf) as [X Y]. split; [exact X|right; exact Y].
   - destruct (dropped_inv cfg g W AO HI) as [_ [[T1 T2] S]]. apply FromA; try assumption. apply dropped_eff.
   - apply FromA; try reflexivity; [auto|]. exists []. split; [apply eff_same; reflexivity|intros f []].
-  - destruct (ctx_start_inv cfg c W AO HI) as [_ [[T1 T2] S]]. apply FromA; try assumption. apply ctx_start_eff; assumption.
+  - destruct (ctx_start_inv cfg c ord W AO HI) as [_ [[T1 T2] S]]. apply FromA; try assumption. apply ctx_start_eff; assumption.
   - destruct (ctx_stop_inv cfg c W AO HI) as [_ [[[T1 T2] S] _]]. apply FromA; try assumption.
     apply ctx_stop_eff; [exact AO|exact HI|apply below_refl].
   - unfold unload. destruct (fold_unload cfg AO (all_ctxs W) W HI) as [H1 [[[T1 T2] S1] _]].
@@ -647,12 +647,12 @@ Definition wit_spec (order : list ident) : fspec := wit_spec_svc order (Some 7) 
 (* D16 at system level: define in one cell, delete in the next, unload: entity 2 keeps a dead queue *)
 Lemma refuted_D16_baseline :
   w_led (unload cfg_only16 (run_ops cfg_only16
-     [OCtxAuto 0 false; ODefine 0 false (wit_spec [w_ab; w_ab_old; w_cd]); OCtxStart 0; OSettle; ODropped 1; OSettle] world0)) <> ledger0.
+     [OCtxAuto 0 false; ODefine 0 false (wit_spec [w_ab; w_ab_old; w_cd]); OCtxStart 0 []; OSettle; ODropped 1; OSettle] world0)) <> ledger0.
 Proof. vm_compute. discriminate. Qed.
 
 (* D90: new subsystem, a function redefined in the cell that defined it: the dropped generation 1 still runs *)
 Definition ops_D90 : list op :=
-  [OCtxAuto 0 false; ODefine 0 true (wit_spec [w_ab]); ODefine 0 true (wit_spec [w_ab]); ODropped 1; OCtxStart 0; OResumeAll; OSettle; OState 1].
+  [OCtxAuto 0 false; ODefine 0 true (wit_spec [w_ab]); ODefine 0 true (wit_spec [w_ab]); ODropped 1; OCtxStart 0 []; OResumeAll; OSettle; OState 1].
 Lemma refuted_D90 :
   existsb (fun r => N.eqb (r_gen r) 1 && N.eqb (rkind_code (r_kind r)) 0) (w_log (run_ops cfg_only90 ops_D90 world0)) = true /\
   existsb (fun r => N.eqb (r_gen r) 1 && N.eqb (rkind_code (r_kind r)) 0) (w_log (run_ops cfg_off ops_D90 world0)) = false.
@@ -678,8 +678,8 @@ Definition ledger_eqb_empty (L : ledger) : bool :=
 (* a registration of service 7 from context 2 is refused (both subsystems); when the owner's context stops, nothing of
    either function is left and a call runs nothing *)
 Definition ops_refused (newsys : bool) : list op :=
-  [ODefine 1 newsys (wit_spec [w_ab]); OCtxStart 1; OResumeAll; OSettle;
-   ODefine 2 newsys (wit_spec [w_cd]); OCtxStart 2; OResumeAll; OSettle; OCall 7; OCtxStop 1; OResumeAll; OSettle; OCall 7; OState 2].
+  [ODefine 1 newsys (wit_spec [w_ab]); OCtxStart 1 []; OResumeAll; OSettle;
+   ODefine 2 newsys (wit_spec [w_cd]); OCtxStart 2 []; OResumeAll; OSettle; OCall 7; OCtxStop 1; OResumeAll; OSettle; OCall 7; OState 2].
 Example ex_refused : forall newsys,
   let W := run_ops cfg_off (ops_refused newsys) world0 in
   w_led W = ledger0 /\ svc_count W 7 = 0%nat /\ filter (fun r => N.eqb (rkind_code (r_kind r)) 5) (w_log W) =
@@ -688,7 +688,7 @@ Proof. intros [|]; vm_compute; repeat split; reflexivity. Qed.
 (* new subsystem, @service in front of the triggers: the context is stopped while start() is suspended behind the
    service registration; when start() resumes it starts nothing, whatever comes later runs nothing *)
 Definition ops_overtake (pos : nat) : list op :=
-  [ODefine 1 true (wit_spec_svc [w_ab] (Some 7) pos); OCtxStart 1; OEvent 1; OCtxStop 1; OResumeAll; OSettle; OEvent 1; OState 1; OCall 7].
+  [ODefine 1 true (wit_spec_svc [w_ab] (Some 7) pos); OCtxStart 1 []; OEvent 1; OCtxStop 1; OResumeAll; OSettle; OEvent 1; OState 1; OCall 7].
 Example ex_overtake :
   map (fun pos => let W := run_ops cfg_off (ops_overtake pos) world0 in
                   (ledger_eqb_empty (w_led W), map (fun r => rkind_code (r_kind r)) (w_log W))) [0%nat; 1%nat; 2%nat; 3%nat] =
